@@ -131,25 +131,41 @@ def _cm_parts(fn: ast.FunctionDef) -> Tuple[List[ast.stmt], ast.Try]:
     return body[:-1], body[-1]
 
 
-def _plain_init_fields(ci) -> Optional[List[Tuple[str, ast.AST]]]:
-    """[(field, value)] when the class's __init__ takes no arguments and only does `self.<field> = <expr>` (else None)."""
+def _plain_init_fields(ci, call: ast.Call = None) -> Optional[List[Tuple[str, ast.AST]]]:
+    """[(field, value)] when the class's __init__ only does `self.<field> = <expr>` (else None); constructor parameters are replaced by the
+    arguments of `call` (positional / keyword, all must be bound)."""
+    from gxstat.inline import substitute
     init = ci.methods.get('__init__')
     if init is None:
-        return []
+        return [] if call is None or (not call.args and not call.keywords) else None
     n = init.node
-    if len(n.args.args) != 1 or n.args.vararg or n.args.kwarg or n.args.kwonlyargs:
+    if n.args.vararg or n.args.kwarg or n.args.kwonlyargs:
         return None
     me = n.args.args[0].arg
+    params = [a.arg for a in n.args.args[1:]]
+    env: Dict[str, ast.AST] = {}
+    if params:
+        if call is None or len(call.args) > len(params) or any(k.arg is None or k.arg not in params for k in call.keywords):
+            return None
+        env = dict(zip(params, call.args))
+        env.update({k.arg: k.value for k in call.keywords})
+        defaults = n.args.defaults
+        for p_, d_ in zip(params[len(params) - len(defaults):], defaults):
+            env.setdefault(p_, d_)
+        if set(params) - set(env):
+            return None
+    elif call is not None and (call.args or call.keywords):
+        return None
     out = []
     for st in n.body:
         if isinstance(st, ast.Expr) and isinstance(st.value, ast.Constant):
             continue
         if isinstance(st, ast.Assign) and len(st.targets) == 1 and isinstance(st.targets[0], ast.Attribute) and \
                 isinstance(st.targets[0].value, ast.Name) and st.targets[0].value.id == me:
-            out.append((st.targets[0].attr, st.value))
+            out.append((st.targets[0].attr, substitute(st.value, env) if env else st.value))
         elif isinstance(st, ast.AnnAssign) and isinstance(st.target, ast.Attribute) and isinstance(st.target.value, ast.Name) \
                 and st.target.value.id == me and st.value is not None:
-            out.append((st.target.attr, st.value))
+            out.append((st.target.attr, substitute(st.value, env) if env else st.value))
         else:
             return None
     return out
@@ -257,10 +273,10 @@ def _desugar_with(repo, body: List[ast.stmt]) -> List[ast.stmt]:
     for st in body:
         # x = Cls()  with a plain __init__
         if isinstance(st, ast.Assign) and len(st.targets) == 1 and isinstance(st.targets[0], ast.Name) and isinstance(st.value, ast.Call) \
-                and isinstance(st.value.func, ast.Name) and not st.value.args and not st.value.keywords:
+                and isinstance(st.value.func, ast.Name):
             ci = repo.find_cls(st.value.func.id)
             if ci is not None and (_exit_protocol_body(ci) is not None or any(m in cms and cms[m] is ci.methods[m].node for m in ci.methods)):
-                fields = _plain_init_fields(ci)
+                fields = _plain_init_fields(ci, st.value)
                 if fields is not None:
                     x = st.targets[0].id
                     inst[x] = ci
@@ -283,12 +299,12 @@ def _desugar_with(repo, body: List[ast.stmt]) -> List[ast.stmt]:
                 changed = True
                 continue
             # `with Cls():` / `with Cls() as x:` - the instance lives for the block only
-            if isinstance(ce, ast.Call) and isinstance(ce.func, ast.Name) and not ce.args and not ce.keywords:
+            if isinstance(ce, ast.Call) and isinstance(ce.func, ast.Name) and ce.func.id not in cms:
                 ci = repo.find_cls(ce.func.id)
-                if ci is not None and _exit_protocol_body(ci) is not None and _plain_init_fields(ci) is not None:
+                if ci is not None and _exit_protocol_body(ci) is not None and _plain_init_fields(ci, ce) is not None:
                     x = st.items[0].optional_vars.id if isinstance(st.items[0].optional_vars, ast.Name) else f'_cm_{ci.name}'
                     me0 = ci.methods['__init__'].node.args.args[0].arg if '__init__' in ci.methods else 'self'
-                    for fld, val in _plain_init_fields(ci):
+                    for fld, val in _plain_init_fields(ci, ce):
                         out.append(field_assign(st, x, fld, val, me0))
                     inst[x] = ci
                     ce = ast.Name(id=x, ctx=ast.Load())
@@ -335,8 +351,15 @@ def check_wrapper(ctx, owner: str, rel: str, body: List[ast.stmt], scope_node: a
 
     owes_cwd_sites: List[ast.AST] = []
     owes_argv_sites: List[ast.AST] = []
-    nodes = [n for st in body for n in ast.walk(st)
-             if not isinstance(n, (ast.FunctionDef, ast.ClassDef))]
+    def _own(st):                       # the statement's own nodes: definitions nested in it run when called, not here
+        stack = [st]
+        while stack:
+            x = stack.pop()
+            if isinstance(x, (ast.FunctionDef, ast.AsyncFunctionDef, ast.ClassDef, ast.Lambda)):
+                continue
+            yield x
+            stack.extend(ast.iter_child_nodes(x))
+    nodes = [n for st in body for n in _own(st)]
     for n in nodes:
         if isinstance(n, ast.Call):
             if _in_pool_submission(n):
@@ -371,6 +394,8 @@ def check_wrapper(ctx, owner: str, rel: str, body: List[ast.stmt], scope_node: a
                 if kind == 'cwd' and v in CWD_READS:
                     out |= {norm(t) for t in tgts}
                 if kind == 'argv' and v in ('sys.argv', 'sys.argv.copy()', 'list(sys.argv)', 'sys.argv[:]'):
+                    out |= {norm(t) for t in tgts}
+                if v in out:                      # a copy of the stash (`holder._argv = stash_argv`) is the stash
                     out |= {norm(t) for t in tgts}
         return out
 
